@@ -435,20 +435,8 @@ void Var::operator=(const String& x)
 	}
 
 	{
-		if(t==NONE) {}
-		else
-			free();
-		if(len < VAR_SSPACE)
-		{
-			_type = SSTRING;
-			memcpy(_ss, *x, len + 1);
-		}
-		else
-		{
-			_type=STRING;
-			NEW_STRINGC(_s, len + 1);
-			memcpy(_s->data(), *x, len + 1);
-		}
+		Var tmp(x); // x may be a property name held by this object: copy it before releasing the object
+		bswap(*this, tmp);
 	}
 }
 
